@@ -244,6 +244,13 @@ func (t *simTransport) Send(ctx context.Context, d []byte) ([]byte, error) {
 		}
 	case "raw":
 		reply = unhex(arg)
+	case "forge":
+		// replace the genuine reply by a forged one for the same request
+		ss := t.b.Sessions()
+		ev := &t.b.Log[len(t.b.Log)-1]
+		if len(ss) > 0 && ev.Kind == "ipmi-session" {
+			reply = forge(arg, ev, ss[len(ss)-1], t.rng)
+		}
 	case "dupprev":
 		// a stale duplicate of an earlier reply arrives instead of this one
 		if t.prev != nil {
@@ -275,7 +282,11 @@ func (t *simTransport) Send(ctx context.Context, d []byte) ([]byte, error) {
 	if len(reply) > len(t.recvBuf) {
 		reply = reply[:len(t.recvBuf)]
 	}
-	t.deliv = append(t.deliv, hex.EncodeToString(reply))
+	if len(reply) == 0 {
+		t.deliv = append(t.deliv, "e") // an empty datagram (distinct from a lost one)
+	} else {
+		t.deliv = append(t.deliv, hex.EncodeToString(reply))
+	}
 	// like the real transport: a window into a reused receive buffer
 	for i := range t.recvBuf {
 		t.recvBuf[i] = 0xEE
